@@ -256,6 +256,27 @@ theorem C01_fn_getSecretOrNone_model {K S : Type} (rel : K → Nat → Option S)
     · have hi : ¬ n > INITIAL := by omega
       simp [a, b, hi, hrel, hfs]
 
+/-- read off the generated bodies alone (every key store, every `from_slice`): a returned secret means
+    `n + 2 ≤ next_holder_commit_num` without wrap-around — `C01_guard` at the level of the generated code -/
+theorem C01_fn_secret_needs_counter {K S : Type} (f : String → Bool)
+    (hf : f "policy-revoke-new-commitment-signed" = true)
+    (rel : K → Nat → Option S) (fs : S → Option Nat) (c : Chan) (k : K) (n sk : Nat) :
+    (Gen.FnChannel.Channel.get_per_commitment_secret f rel fs (toCh c k) n = .ok sk →
+        n + 2 ≤ c.next ∧ n + 2 ≤ Rs.U64_MAX)
+    ∧ (Gen.FnChannel.Channel.get_per_commitment_secret_or_none rel fs (toCh c k) n = .ok (some sk) →
+        n + 2 ≤ c.next ∧ n + 2 ≤ Rs.U64_MAX) := by
+  constructor
+  · intro h
+    rw [C01_fn_get_per_commitment_secret f hf rel fs c k n] at h
+    by_cases g : n + 2 > Rs.U64_MAX ∨ n + 2 > c.next
+    · rw [if_pos g] at h; cases h
+    · constructor <;> omega
+  · intro h
+    rw [C01_fn_get_per_commitment_secret_or_none rel fs c k n] at h
+    by_cases g : n + 2 > Rs.U64_MAX ∨ n + 2 > c.next
+    · rw [if_pos g] at h; cases h
+    · constructor <;> omega
+
 /-- what the guard rests on: with `policy-revoke-new-commitment-signed` demoted to a warning the macro only logs and the
     secret of ANY number up to 2^48-1 is released (the documented opt-out `new_permissive()`; the model, the harness'
     filters and `C01_main` assume the tag stays an error) -/
@@ -373,6 +394,11 @@ theorem C01_fn_revoke_request {K S : Type} (ptf : Nat → Nat)
     · rename_i ho
       refine ⟨rfl, fun h => absurd h ?_⟩
       simpa using ho
+
+-- non-vacuity of the hypotheses of `C01_fn_revoke_request`: next = 1 with a staged commitment, a total key store
+example :=
+  C01_fn_revoke_request (K := Unit) (S := Nat) (fun n => n) (fun _ i => some i) (fun s => some s) (fun _ i => i) (fun s => s)
+    (fun _ _ => rfl) (fun _ => rfl) { slot := .ready, next := 1, cur := some 0, nextInfo := some 1 } () 1 rfl (by decide)
 
 /-! ### `EnforcementState::new` (validator.rs:696): the state every channel starts from -/
 
